@@ -76,7 +76,7 @@ CHECKS = {
          "Overlapping Head() callers are explored at event granularity (a second call while the first one's request is held).", "2.3 C19"),
  "C12": ("E2-schedx", "model_checking",
          "stateless DFS over thread schedules with iterative preemption bounding on the real store code (instrumented copy generated from the working tree, controlled scheduler on synctest quiescence)",
-         "Every synchronisation operation of the store package (mutex/rwmutex/once/waitgroup, atomics, channel send/recv/close/select, goroutine start) and every datastore operation is a scheduling point; all schedules with <= 1 preemption (quick; thorough <= 2, one more attempted) are enumerated for: reader vs contiguous append, reader vs gapped-then-filled append, two readers + canceller + writer, missing height below Height(), cancelled reader, reader vs the first batch of an empty store, gapped-never-filled, (thorough) two readers vs out-of-order writers; batch sizes 1 and 64. Oracle per execution: the reader gets the appended header and never its deadline (a lost wake-up is a reader only released by virtual time), ErrNotFound / cancellation without time passing, no deadlock.",
+         "Every synchronisation operation of the store package (mutex/rwmutex/once/waitgroup, atomics, channel send/recv/close/select, goroutine start) and every datastore operation is a scheduling point; all schedules with <= 1 preemption (quick; thorough <= 2, one more attempted) are enumerated for: reader vs contiguous append, reader vs gapped-then-filled append, two readers + canceller + writer, missing height below Height(), cancelled reader, reader vs the first batch and the very first header of an empty store, gapped-never-filled, (thorough) two readers vs out-of-order writers; batch sizes 1 and 64. Oracle per execution: the reader gets the appended header and never its deadline (a lost wake-up is a reader only released by virtual time), ErrNotFound / cancellation without time passing, no deadlock.",
          "Unsynchronised accesses between two scheduling points are not interleaved; weak memory is not modelled; Go's own choice among select clauses becoming ready simultaneously while a thread is blocked is not owned.", "2.2 C12"),
  "C17": ("E2-schedx", "model_checking",
          "stateless DFS over thread schedules with iterative preemption bounding on the real store code (instrumented copy), per-execution oracle and comparison with the sequential result",
